@@ -1,17 +1,17 @@
-\* exhaustive (quick): 2 batchers, count 3, size 1 KB, memory 2 KB, timer on, callback failures, depth 5
+\* random deep plans with callbacks that edit the packs in place: 3 batchers, count 3, size 1 KB, memory 3 KB, timer 1 ms;
+\* params maxCount=3 maxMsgKB=1 memKB=3 timerMs=1
 SPECIFICATION Spec
 CHECK_DEADLOCK FALSE
-VIEW view
-INVARIANTS TypeOK Contract Design
+INVARIANTS PlanOut
 CONSTANTS
-  Batchers = {"a", "b"}
+  Batchers = {"a", "b", "c"}
   Classes = {"zero", "small", "big"}
   MaxCount = 3
   MaxSize = 2
-  MemMax = 4
+  MemMax = 6
   TimerOn = TRUE
   WithFail = TRUE
-  MaxOps = 5
+  MaxOps = 14
   Muts = {"same", "grow", "shrink"}
   ResetOnError = TRUE
   AddBeforeChecks = TRUE
